@@ -126,11 +126,14 @@ def r2_grouping(ctx):
         ctx.check(okr and kw.get("ranking") == "ranking", f, ctors[0], "positions follow the group key in column order; blanks kept as {None}", astx.u(rk)[:100] if rk is not None else "",
                   f"ranking is built as `{astx.u(rk) if rk is not None else None}`")
         N = Normalizer(f.node, inline=False)
-        wdefs = {bool_key(N.conj([c for c in astx.path_condition(f.node, st, pm, carried=False) if "weight_col" in astx.u(c[0])])): astx.u(dv) for st, dv in astx.defs_of(f.node, "weight") if dv is not None}
-        good = wdefs == {"True": f"len({gdf})", "not isnone(weight_col)": f"sum({gdf}.iloc[:, weight_col])"} and kw.get("weight") == "Fraction(weight)"
+        cst = astx.stmt_of(ctors[0], pm)
+        # effective values at the constructor call, as complete case splits ("default then override" == if / else)
+        wdefs = astx.cases_dict(f.node, astx.u(ctors[0].keywords[[k.arg for k in ctors[0].keywords].index("weight")].value.args[0]) if kw.get("weight", "").startswith("Fraction(") else "weight", cst, N, pm) \
+            if "weight" in kw else None
+        good = wdefs == {"isnone(weight_col)": f"len({gdf})", "not isnone(weight_col)": f"sum({gdf}.iloc[:, weight_col])"} and kw.get("weight", "").startswith("Fraction(")
         ctx.check(good, f, ctors[0], "weight = number of rows of the group, or the sum of its weight column", str(wdefs), f"weight is computed as {wdefs}, passed as {kw.get('weight')}")
-        vs = {bool_key(N.conj([c for c in astx.path_condition(f.node, st, pm, carried=False) if "id_col" in astx.u(c[0])])): astx.u(dv) for st, dv in astx.defs_of(f.node, "voter_set") if dv is not None}
-        ctx.check(vs == {"True": "None", "not isnone(id_col)": f"set({gdf}.iloc[:, id_col])"} and kw.get("voter_set") == "voter_set", f, ctors[0], "voter_set = the ids of the group's rows", str(vs),
+        vs = astx.cases_dict(f.node, kw.get("voter_set", "voter_set"), cst, N, pm) if "voter_set" in kw else None
+        ctx.check(vs == {"isnone(id_col)": "None", "not isnone(id_col)": f"set({gdf}.iloc[:, id_col])"}, f, ctors[0], "voter_set = the ids of the group's rows", str(vs),
                   f"voter_set is computed as {vs}")
     rets = [n for n in astx.walk_own(f.node) if isinstance(n, ast.Return)]
     ctx.check(len(rets) == 1 and astx.u(rets[0].value) == "PreferenceProfile(ballots=tuple(ballots))", f, rets[0] if rets else f.node, "the profile holds exactly those ballots", "", "return changed")
@@ -173,7 +176,7 @@ def r3_guards(ctx):
         bool_key(Normalizer(f.node, inline=False).conj(astx.path_condition(f.node, inner[0], pm, carried=False))) == "not in('Candidate', line[0])"
     ctx.check(good, f, inner[0] if inner else f.node, "load_scottish: a non-candidate line inside the candidate block -> DataError", "", "candidate-line check changed")
     dc = astx.unique_def(f.node, "data_cand_num")
-    ctx.check(dc is not None and astx.u(dc) == astx.A("len([r for r in data if 'Candidate' in str(r[0])])"), f, dc or f.node, "declared candidate count is compared with the number of candidate lines", "",
+    ctx.check(dc is not None and astx.u(dc) in (astx.A("len([r for r in data if 'Candidate' in str(r[0])])"), astx.A("sum(1 for r in data if 'Candidate' in str(r[0]))")), f, dc or f.node, "declared candidate count is compared with the number of candidate lines", "",
               "data_cand_num changed")
     ballots_line = min((n.lineno for n in astx.walk_own(f.node) if isinstance(n, ast.Call) and astx.call_name(n) == "Ballot" and n.keywords), default=10 ** 9)
     ctx.check(all(r.lineno < ballots_line for r in astx.raises_in(f.node)), f, f.node, "load_scottish: all rejections precede ballot construction", "", "a rejection happens after ballots are built")
